@@ -42,10 +42,11 @@ type Header struct {
 var errHandler = errors.New("verif: handler error")
 
 type env struct {
-	impl  string
-	store keyvalue.Store
-	plain *kvstore.Store
-	model map[string]string
+	impl   string
+	store  keyvalue.Store
+	plain  *kvstore.Store
+	model  map[string]string
+	resync bool
 }
 
 func newEnv(impl string) *env {
@@ -145,6 +146,11 @@ func (e *env) runTxn(calls []Call) (string, string) {
 	if prob != "" {
 		return base + " after:contents", prob
 	}
+	if e.resync {
+		// committed under a done context: applied or not is the implementation's choice; continue from what the store holds
+		e.resync = false
+		e.model = got
+	}
 	if !sameMap(got, e.model) {
 		return base + " after:store-differs-from-model", fmt.Sprintf("after transaction %v the store holds %v, model %v", calls, got, e.model)
 	}
@@ -233,6 +239,13 @@ func (e *env) runTxnInner(calls []Call) (string, string) {
 			how = c.How
 			if c.How == "commit" {
 				results, commitErr = txn.Commit(context.Background())
+			} else if c.How == "commit-canceled" {
+				// another way a transaction ends: the caller's context is already done. What Commit returns then is
+				// not pinned (results or the context's error); that the store is released and consistent is.
+				ctx, cancel := context.WithCancel(context.Background())
+				cancel()
+				_, _ = txn.Commit(ctx)
+				e.resync = true
 			} else {
 				if err := txn.Abort(); err != nil {
 					return "abort:error", err.Error()
@@ -351,7 +364,7 @@ func genCalls(t *rapid.T) []Call {
 			}
 			calls = append(calls, c)
 		default:
-			calls = append(calls, Call{K: "finish", How: rapid.SampledFrom([]string{"commit", "commit", "abort"}).Draw(t, "how")})
+			calls = append(calls, Call{K: "finish", How: rapid.SampledFrom([]string{"commit", "commit", "commit", "abort", "abort", "commit-canceled"}).Draw(t, "how")})
 		}
 	}
 	return calls
